@@ -938,6 +938,73 @@ def c05_numeric(r) -> dict:
     return col.result(cases=1)
 
 
+def c05_neutral_start(r) -> dict:
+    """The model is a function of the values it is EVALUATED at, not of the starting values its parameters carried
+    when it was built: every scale, nest parameter and (non-zero) allocation parameter is a free parameter whose
+    starting value is neutral (1 for scales and nest parameters, 0 for allocation parameters) and whose real value is
+    given in a dictionary at evaluation time."""
+    import biogeme.models as M
+    from biogeme.expressions import Beta, Numeric, log
+    from biogeme.nests import (NestsForCrossNestedLogit, NestsForNestedLogit, OneNestForCrossNestedLogit,
+                               OneNestForNestedLogit)
+
+    col = Collector()
+    if r['kind'] not in ('nl', 'cnl'):
+        return col.result(cases=0)
+    labels = r['labels']
+    J = len(labels)
+    V = {lab: log(Numeric(float(a))) for lab, a in zip(labels, r['a'])}
+    av = {lab: Numeric(int(x)) for lab, x in reversed(list(zip(labels, r['av'])))}
+    want = vals(r['p'], r.get('refs'))
+    tol = TOL_EXACT if r['exact'] else TOL_TERM
+    real = {}
+
+    def par_(name, value, neutral):
+        real[name] = float(value)
+        return Beta(name, neutral, None, None, 0)
+
+    mu_real = fr(r['mu'])
+    mu = par_('mu_scale', mu_real, 1.0)
+    fns = []
+    if r['kind'] == 'nl':
+        mem = [(m, fr(r['mus'][m]), [labels[i] for i in range(J) if fr(r['alpha'][i][m]) != 0]) for m in (0, 1)]
+        mem = [x for x in mem if x[2]]
+        nests = NestsForNestedLogit(choice_set=list(labels), tuple_of_nests=tuple(
+            OneNestForNestedLogit(nest_param=par_(f'mu_nest_{m}', v, 1.0), list_of_alternatives=list(alts), name=f'n{m}') for m, v, alts in mem))
+        fns = [('nested_mev_mu', False, lambda ch: M.nested_mev_mu(V, av, nests, ch, mu)),
+               ('lognested_mev_mu', True, lambda ch: M.lognested_mev_mu(V, av, nests, ch, mu))]
+        if mu_real == 1:
+            fns += [('nested', False, lambda ch: M.nested(V, av, nests, ch)), ('lognested', True, lambda ch: M.lognested(V, av, nests, ch))]
+    else:
+        nested = [i for i in range(J) if any(fr(x) != 0 for x in r['alpha'][i])]
+        spec = []
+        for m in (0, 1):
+            al = {labels[i]: par_(f'alpha_{m}_{i}', fr(r['alpha'][i][m]), 0.0) for i in nested if fr(r['alpha'][i][m]) != 0}
+            if al:
+                spec.append((m, fr(r['mus'][m]), al))
+        nests = NestsForCrossNestedLogit(choice_set=list(labels), tuple_of_nests=tuple(
+            OneNestForCrossNestedLogit(nest_param=par_(f'mu_nest_{m}', v, 1.0), dict_of_alpha=dict(al), name=f'n{m}') for m, v, al in spec))
+        fns = [('cnlmu', False, lambda ch: M.cnlmu(V, av, nests, ch, mu)), ('logcnlmu', True, lambda ch: M.logcnlmu(V, av, nests, ch, mu))]
+        if mu_real == 1:
+            fns += [('cnl', False, lambda ch: M.cnl(V, av, nests, ch)), ('logcnl', True, lambda ch: M.logcnl(V, av, nests, ch))]
+    for fn, is_log, build in fns:
+        try:
+            v = []
+            for lab in labels:
+                e = build(Numeric(lab))
+                v.append(float(_eval(e, betas={k: x for k, x in real.items() if k in e.get_beta_values()})))
+        except Exception as e:  # noqa
+            raise RuntimeError(f'{fn} (neutral starting values) on {describe(r)}: {type(e).__name__}: {e}')
+        col.evals += J
+        col.n += J
+        for i in range(J):
+            ok = _logclose(v[i], want[i], tol) if is_log else close(v[i], want[i], rel=tol)
+            if not ok:
+                col.bad(f'{r["kind"]}:{fn}:value-at-given-parameters', r, facts_of(r, fn, 'value-neutral-start'), alternative=labels[i],
+                        got=v[i], want=want[i], evaluated_at=real)
+    return col.result(cases=1)
+
+
 def ord_case(r, corrupt=None) -> dict:
     """Ordered logit / probit: every category of one case."""
     from biogeme.expressions import Beta, Numeric, log
